@@ -393,13 +393,17 @@ def describe(data):
                 else:
                     sib = -1
             refs = [a.name for a in die.attributes.values() if a.form.startswith('DW_FORM_ref') and a.form not in ('DW_FORM_ref_sig8', 'DW_FORM_ref_sup4', 'DW_FORM_ref_sup8')]
-            u['dies'].append({'off': die.offset, 'size': die.size, 'ch': bool(die.has_children), 'null': die.is_null(), 'sib': sib, 'refs': refs})
+            refv = [[a.name, a.form == 'DW_FORM_ref_addr', a.raw_value] for a in die.attributes.values()
+                    if a.name in refs and isinstance(a.name, str) and isinstance(a.raw_value, int) and a.raw_value >= 0]
+            u['dies'].append({'off': die.offset, 'size': die.size, 'ch': bool(die.has_children), 'null': die.is_null(), 'sib': sib, 'refs': refs,
+                              'refv': refv})
         top = cu.get_top_DIE()
         u['stmt'] = top.attributes['DW_AT_stmt_list'].value if 'DW_AT_stmt_list' in top.attributes else None
         d['units'].append(u)
     pn = di.get_pubnames() if di.debug_pubnames_sec else None
     if pn is not None:
         d['pub_names'] = list(pn.keys())[:20]
+        d['pubtab'] = [[k, e.cu_ofs, e.die_ofs] for k, e in pn.items()]
     d['pos0'] = di.debug_info_sec.stream.tell() if di.debug_info_sec else 0
     for w in INFO_STREAMS:
         stt = s.stream(w)
@@ -421,6 +425,8 @@ def model_compatible(op):
         return True
     if k in ('take', 'all', 'it_new'):
         return op[1] in ('cus', 'dies', 'children', 'secs', 'segs', 'syms') and not (k == 'it_new' and op[1] in ('secs', 'segs', 'syms'))
+    if k == 'ref':
+        return isinstance(op[3], str)
     return k in MODEL_OPS
 
 
@@ -572,24 +578,35 @@ FINDINGS = {'lineprogram-define-file-header': is_define_file_case}
 
 # ----------------------------------------------------------------------------------------------- Lean correspondence
 MODEL_OPS = {'cu_at', 'cu_cont', 'top', 'die', 'refaddr', 'children', 'parent', 'lp', 'lp_hdr', 'seek', 'it_new', 'it_next',
-             'take', 'all', 'sec_idx', 'sym_n'}
+             'take', 'all', 'sec_idx', 'sym_n', 'siblings', 'ref', 'pubname'}
 
 
 def model_request(desc, ops):
     """the pure parse tables of the file + the op list, for `Model.C10.step`"""
     units = [[u['off'], u['size'], u['die_off'], -1 if u['stmt'] is None else u['stmt'],
-              [[x['off'], x['size'], x['ch'], x['null'], -1 if x['sib'] is None else x['sib']] for x in u['dies']]]
+              [[x['off'], x['size'], x['ch'], x['null'], -1 if x['sib'] is None else x['sib'], x.get('refv', [])] for x in u['dies']]]
              for u in desc['units']]
     return {'p': 'C10', 'k': 'hist', 'size': desc.get('info_size', 0), 'units': units,
-            'secs': desc.get('sec_list', []), 'syms': desc.get('sym_list', []), 'pos0': desc.get('pos0', 0), 'ops': ops}
+            'secs': desc.get('sec_list', []), 'syms': desc.get('sym_list', []), 'pos0': desc.get('pos0', 0), 'ops': ops,
+            'pubnames': desc.get('pubtab')}
 
 
 def model_view_answer(op, ans, stmt_of=None):
     """project a live answer to what the model answers (offsets)"""
     if 'err' in ans:
+        # `raise StopIteration()` inside the `iter_siblings` generator reaches the caller as RuntimeError (PEP 479);
+        # the model mirrors the statement that is written
+        if op[0] == 'siblings' and ans['err'] == 'other:RuntimeError':
+            return {'err': 'stopIteration'}
         return ans
     a = ans['ok']
     k = op[0]
+    if k == 'siblings':
+        return {'ok': [x['off'] for x in a]}
+    if k == 'ref':
+        return {'ok': a['off']}
+    if k == 'pubname':
+        return {'ok': None if a is None else [a[0], a[1], a[2]['off']]}
     if k in ('cu_at', 'cu_cont'):
         return {'ok': [a['off'], a['die_off']]}
     if k in ('top', 'die', 'refaddr'):
@@ -615,8 +632,8 @@ def model_supported(op):
         return False
     if k in ('take', 'all', 'it_new'):
         return op[1] in ('cus', 'dies', 'children')
-    if k == 'seek':
-        return True
+    if k == 'ref':
+        return isinstance(op[3], str)
     return True
 
 
